@@ -184,6 +184,21 @@ def replay_obj(model):
         # the same record when the well already had produced 250 before the first sample (cumulative production does not
         # start at 0: a table cut at a later date, or rows filtered before the fit): the objective is off by exactly -250
         res2 = fp._obj_function(par, days, prod + 250.0, pvt, pf)
+        # a table with the user's own diffusivity column whose pseudopressure is referenced to a pressure ABOVE the final
+        # frac-face pressure: the scaled frac-face value is negative and recovery_factor() rises past 1 - the objective is
+        # still M * recovery_factor - production, whatever range the forward model's curve takes
+        import pandas as pd
+        pt = np.arange(500.0, 6001.0, 100.0)
+        own = pd.DataFrame({"pressure": pt, "pseudopressure": (pt - 2950.0) * 1000.0, "alpha": np.full(len(pt), 2.0)})
+        days3 = np.array([0.0, 100.0, 400.0, 1000.0, 1600.0])
+        pf3 = np.array([2600.0, 2300.0, 2000.0, 2000.0, 2000.0])
+        r3 = SinglePhaseReservoir(80, pi, pi, FlowProperties(own, pi))
+        r3.simulate(days3 / tau, pressure_fracface=pf3)
+        rf3 = np.asarray(r3.recovery_factor(), float)
+        res3 = np.asarray(fp._obj_function(par, days3, M * rf3, own, pf3), float)
+    if bool(np.any(np.abs(res3) > 1e-9 * (1 + np.abs(M * rf3)))):
+        return True, {"what": f"table with its own diffusivity column and a pseudopressure reference above the final frac-face pressure (recovery_factor reaches {rf3.max():.3f}): "
+                              f"objective at the generating parameters = {res3.tolist()} (must be 0)"}
     bad = bool(np.any(np.abs(res) > 1e-9 * (1 + np.abs(prod))))
     if not bad and bool(np.any(np.abs(np.asarray(res2) + 250.0) > 1e-9 * (251 + np.abs(prod)))):
         return True, {"what": f"objective for cumulative production shifted by 250 at the generating parameters = {np.asarray(res2).tolist()} (must be -250 everywhere: "
